@@ -767,17 +767,19 @@ class C04World:
         applier = OPS[op][2]
         key = {"op": op, "pre": pre}
         parties = [("subject", S), ("twin", it.twin)] + [(f"variant {v[0]}", v[1]) for v in it.variants]
-        if OPS[op][0] == DIRECT or (op == "add_relative_message" and args.get("index") is not None):
-            # these address a message by its position in a view: the same value may be stored as [wait 3, wait 189] in the
-            # twin made when the iterator was opened and as [wait 192] in the subject whose view was dropped and regenerated
-            # since - then "message number k" is a different message and the comparison would be the harness's mistake
-            try:
-                shapes = {_structure(q) for _, q in parties}
-            except Exception:
-                shapes = {0, 1}
-            if len(shapes) != 1:
-                self.stats["skip/position_addressed_op_on_differently_stored_parties"] += 1
-                return "skip:stored-form-differs"
+        # The twin and the variants were made when the iterator was opened; the subject may have had a view dropped and
+        # regenerated since. The same music can then be STORED differently in the parties - [wait 3, wait 189] against
+        # [wait 192], or two messages of one tick in another order - and an operation that addresses a message by position
+        # (direct_edit, add_relative_message(index)) or whose result depends on the order inside a tick (normalise on a
+        # signature and a note sharing a tick) legitimately differs. Comparing them would be the harness's mistake (it was,
+        # twice: DESIGN 12.3), so the comparison is only made while all parties store both views identically.
+        try:
+            shapes = {_structure(q) for _, q in parties}
+        except Exception:
+            shapes = {0, 1}
+        if len(shapes) != 1:
+            self.stats["skip/op_before_first_next_on_differently_stored_parties"] += 1
+            return "skip:stored-form-differs"
         outs = [(name, ) + _call(applier, q, args) for name, q in parties]
         excs = [o for o in outs if o[2] is not None]
         if excs:
